@@ -8,7 +8,8 @@ KINDS = ("DDM", "EDDM", "STEPD")
 
 
 def replayer(traces):
-    return lambda i: {"driver": "error_based", "kind": traces[i]["kind"], "params": traces[i]["params"], "seq": traces[i]["seq"]}
+    return lambda i: {"driver": "error_based", "kind": traces[i]["kind"], "params": traces[i]["params"], "seq": traces[i]["seq"],
+                      "resets": traces[i]["resets"], "bads": traces[i]["bads"]}
 
 
 def run(ctx):
@@ -28,7 +29,9 @@ def run(ctx):
     # 3. conformance, long piecewise-stationary random sequences, production-like parameters
     nt, ln = (40, 1500) if q else (300, 5000)
     for k in KINDS:
-        traces = pmap(D.run, [(k, D.random_params(k, ctx.rng), D.piecewise(ctx.rng, ln)) for i in range(nt)])
+        # (user resets and refused calls - labels with several observations - are mixed into the long streams)
+        traces = pmap(D.run, [(k, D.random_params(k, ctx.rng), D.piecewise(ctx.rng, ln), D.default_enc, None,
+                               tuple(sorted(ctx.rng.sample(range(1, ln), 3))), tuple(sorted(ctx.rng.sample(range(1, ln), 3)))) for i in range(nt)])
         ctx.validate(k, traces, "%s long random streams" % k, sabotage=D.sabotage, replay=replayer(traces),
                      nontrivial=lambda t: sum(1 for e in t["ev"] if e["state"] == "drift") >= 2)
     ctx.assumptions += ["standard normal quantiles z(1-alpha) for STEPD come from scipy.stats.norm.ppf (trusted table)",
@@ -38,6 +41,6 @@ def run(ctx):
 
 def replay(ctx, bundle):
     r = bundle["replay"]
-    t = D.run(r["kind"], r["params"], r["seq"])
+    t = D.run(r["kind"], r["params"], r["seq"], resets=tuple(r.get("resets", ())), bads=tuple(r.get("bads", ())))
     ctx.validate(r["kind"], [t], "replay", replay=lambda i: r)
     return ctx.finish()
